@@ -185,6 +185,12 @@ func runC07() {
 		nRand, nMut, nOp = 60000, 30000, 40
 	}
 	badContexts(r)
+	interpgen.BigNumSweep(func(p *interpgen.Program) { emitOrGoOnly(p) })
+	nShapes := 1200
+	if c.Thorough() {
+		nShapes = 40000
+	}
+	sigShapes(r, goOnly, nShapes)
 	// arbitrary byte strings as scripts
 	for i := 0; i < nRand; i++ {
 		p := &interpgen.Program{Unlock: r.Bytes(r.Intn(12)), Lock: r.Bytes(r.Intn(40)), Flags: uint32(r.U64() & 0xffff), Kind: "random-bytes"}
@@ -238,7 +244,7 @@ func runC07() {
 			}
 		}
 	}
-	c.Stats.Rule = "arbitrary byte strings as unlocking/locking scripts, mutations (bit flip, truncate, splice, byte replace) of the node vectors, every opcode 0..255 with 0..3 arbitrary operands and arbitrary trailing bytes; 16-bit flag words; contexts {no tx, tx + previous output, tx without previous output}; plus 1 700 argument combinations validate() must reject (negative / too large index, nil tx, nil scripts, missing previous output) with and without a debugger. Programs with signature opcodes under a full tx context and P2SH under a full context run on the implementation only (go-only); everything else is also evaluated on the Coq model. After Genesis OP_NUM2BIN is replaced by OP_NOP (its target size is an attacker-chosen allocation up to 2^31-1 bytes: memory policy, out of scope). distinct = distinct (scripts, flags, context); non-trivial = all (every case exercises validation or execution)"
+	c.Stats.Rule = "big-number operand sweep; 1200 signature-opcode shapes with a full transaction context (junk signatures/keys, code separators in either script, early OP_RETURN in the unlocking script; implementation only); arbitrary byte strings as unlocking/locking scripts, mutations (bit flip, truncate, splice, byte replace) of the node vectors, every opcode 0..255 with 0..3 arbitrary operands and arbitrary trailing bytes; 16-bit flag words; contexts {no tx, tx + previous output, tx without previous output}; plus 1 700 argument combinations validate() must reject (negative / too large index, nil tx, nil scripts, missing previous output) with and without a debugger. Programs with signature opcodes under a full tx context and P2SH under a full context run on the implementation only (go-only); everything else is also evaluated on the Coq model. After Genesis OP_NUM2BIN is replaced by OP_NOP (its target size is an attacker-chosen allocation up to 2^31-1 bytes: memory policy, out of scope). distinct = distinct (scripts, flags, context); non-trivial = all (every case exercises validation or execution)"
 }
 
 // neutralise replaces OP_NUM2BIN at opcode positions by OP_NOP.
